@@ -126,6 +126,15 @@ def edits_for(spec_factory, rng):
             if len(d) + 6 <= 210:
                 s.entries[i]["desc"] = bytes((0x55, 1, 1)) + d + bytes((0x55, 1, 1))
                 yield "duplicate_tag_distant", "duplicate_tag", s.assemble(), key
+        # duplicate tag whose first occurrence has an empty value / both empty
+        s = spec_factory()
+        d = s.entries[i]["desc"]
+        if len(d) + 5 <= 210:
+            s.entries[i]["desc"] = bytes((0x56, 0)) + d + bytes((0x56, 1, 7))
+            yield "duplicate_tag_first_value_empty", "duplicate_tag", s.assemble(), key
+            s = spec_factory()
+            s.entries[i]["desc"] = d + bytes((0x57, 0, 0x57, 0))
+            yield "duplicate_tag_both_values_empty", "duplicate_tag", s.assemble(), key
         # tag length running past the description
         s = spec_factory()
         s.entries[i]["desc"] = s.entries[i]["desc"][:0] + bytes((0x66, 5, 1, 2))
